@@ -69,7 +69,7 @@ func init() {
 	register(&Prop{
 		ID:         "C01",
 		Title:      "Single-item operations behave as a sequential key-to-item map",
-		Decided:    "the representation invariant I1 (SortedKeys is exactly the sorted key set of Data) is preserved by every mutator on every path, and every access to Data uses the table's own key derivation: (R1) only core functions write Table.Data/SortedKeys after construction and each of them is a checked mutator; (R2) path-case analysis of each mutator: net change of Data[k] (absent→present, present→absent, overwrite) is matched by exactly the corresponding insertion (followed by a sort) or binary-search removal of k in SortedKeys, presence being established by a comma-ok lookup of the same key before the change; reset resets both; (R3) the key operand of every Data lookup/update/delete derives from keySchema.GetKey(t.KeySchema, t.AttributesDef, ·) of the same table (or, on the search path, from SortedKeys/index entries); (R4) the map stored under a key is a fresh copy (or the map already stored there), never a caller's map; (R5) UpdateItem on an absent key starts from a copy of the request key; (R7) GetItem's output derives from Data[key] with key derived from the request key, through conversion/copy only. By induction over histories I1 holds in every reachable state, which is what makes GetItem/Scan/ItemCount agree.",
+		Decided:    "the representation invariant I1 (SortedKeys is exactly the sorted key set of Data) is preserved by every mutator on every path, and every access to Data uses the table's own key derivation: (R1) only core functions write Table.Data/SortedKeys after construction and each of them is a checked mutator; (R2) path-case analysis of each mutator: net change of Data[k] (absent→present, present→absent, overwrite) is matched by exactly the corresponding insertion (followed by a sort) or binary-search removal of k in SortedKeys, presence being established by a comma-ok lookup of the same key before the change; reset resets both; (R3) the key operand of every Data lookup/update/delete derives from keySchema.GetKey(t.KeySchema, t.AttributesDef, ·) of the same table (or, on the search path, from SortedKeys/index entries); (R4) the map stored under a key is a fresh copy (or the map already stored there), never a caller's map; (R5) UpdateItem on an absent key starts from a copy of the request key; (R7) GetItem's output derives from Data[key] with key derived from the request key, through conversion/copy only. By induction over histories I1 holds in every reachable state, which is what makes GetItem/Scan/ItemCount agree; (R8) no function on the key derivation path calls a text or number transformation (strings.*, strconv.*, bytes.*, math.*, regexp) other than a join: distinct key values never fold into one key string.",
 		NotDecided: "contents of items after an update (C07), injectivity of the key encoding (C13), value-level equality of returned items (C10), ownership below the top-level map (C14).",
 		Assumes:    []string{"I1 is assumed at function entry when discharging a mutator (induction hypothesis); the branch 'binary search did not find a key that a lookup just found' is infeasible under I1 and dropped"},
 		Rules: []RuleDef{
@@ -246,47 +246,7 @@ func init() {
 					e.fail("R5", "core.Table.Update:upsert-from-key", e.pos(upd.Pos()), "no call hands an item to the update interpreter")
 				}
 			}},
-			{ID: "R8", Desc: "the key derivation contains no lossy conversion (two different key values never render to one key string through rounding)", Run: func(e *Engine) {
-				gk := e.fn("core", "keySchema.GetKey")
-				if !e.anchor("R8", "core.keySchema.GetKey", gk == nil) {
-					return
-				}
-				n := 0
-				for g := range e.reach(gk) {
-					if e.fnRole(g) == "" {
-						continue
-					}
-					n++
-					bad := ""
-					instrs(g, func(in ssa.Instruction) {
-						switch x := in.(type) {
-						case *ssa.Call:
-							name := staticCalleeName(x)
-							// only renderings and joins are expected on this path; any other text or number transformation may fold keys
-							if name == "strings.Join" {
-								break
-							}
-							for _, pkg := range []string{"strings.", "strconv.", "bytes.", "unicode.", "(*regexp.Regexp).", "math.", "(*math/big."} {
-								if strings.HasPrefix(name, pkg) {
-									bad = name + " at " + e.ipos(in)
-								}
-							}
-						case *ssa.Convert:
-							if isFloat(x.Type()) || isFloat(x.X.Type()) {
-								bad = "floating-point conversion at " + e.ipos(in)
-							}
-						}
-					})
-					if bad != "" {
-						e.fail("R8", e.fname(g)+":lossless-key-rendering", e.pos(g.Pos()), "%s on the key derivation path: distinct key values can be folded into one key string (e.g. 9007199254740992 and 9007199254740993 as float64), so a write to one key overwrites another", bad)
-					} else {
-						e.ob("R8", e.fname(g)+":lossless-key-rendering", e.pos(g.Pos()), Pass, false, "no rounding, case folding or trimming on the key derivation path")
-					}
-				}
-				if n < 3 {
-					e.fail("R8", "count:R8", "-", "only %d functions on the key derivation path", n)
-				}
-			}},
+			{ID: "R8", Desc: "the key derivation contains no lossy conversion (two different key values never render to one key string through rounding)", Run: c01R8},
 			{ID: "R7", Desc: "GetItem output derives from Data[GetKey(request key)] through copy/conversion only (T-FLOW)", Run: func(e *Engine) {
 				for _, role := range clientRoles {
 					gi := e.clientMethods(role)["GetItem"]
@@ -328,4 +288,47 @@ func fieldOwner2(addr ssa.Value) string {
 		return typeName(fa.X.Type())
 	}
 	return ""
+}
+
+// c01R8: the key derivation contains no lossy conversion (shared with C13.R6).
+func c01R8(e *Engine) {
+	gk := e.fn("core", "keySchema.GetKey")
+	if !e.anchor("R8", "core.keySchema.GetKey", gk == nil) {
+		return
+	}
+	n := 0
+	for g := range e.reach(gk) {
+		if e.fnRole(g) == "" {
+			continue
+		}
+		n++
+		bad := ""
+		instrs(g, func(in ssa.Instruction) {
+			switch x := in.(type) {
+			case *ssa.Call:
+				name := staticCalleeName(x)
+				// only renderings and joins are expected on this path; any other text or number transformation may fold keys
+				if name == "strings.Join" {
+					break
+				}
+				for _, pkg := range []string{"strings.", "strconv.", "bytes.", "unicode.", "(*regexp.Regexp).", "math.", "(*math/big."} {
+					if strings.HasPrefix(name, pkg) {
+						bad = name + " at " + e.ipos(in)
+					}
+				}
+			case *ssa.Convert:
+				if isFloat(x.Type()) || isFloat(x.X.Type()) {
+					bad = "floating-point conversion at " + e.ipos(in)
+				}
+			}
+		})
+		if bad != "" {
+			e.fail("R8", e.fname(g)+":lossless-key-rendering", e.pos(g.Pos()), "%s on the key derivation path: distinct key values can be folded into one key string (e.g. 9007199254740992 and 9007199254740993 as float64), so a write to one key overwrites another", bad)
+		} else {
+			e.ob("R8", e.fname(g)+":lossless-key-rendering", e.pos(g.Pos()), Pass, false, "no rounding, case folding or trimming on the key derivation path")
+		}
+	}
+	if n < 3 {
+		e.fail("R8", "count:R8", "-", "only %d functions on the key derivation path", n)
+	}
 }
